@@ -3,7 +3,7 @@
 Byte-stream equality over all chunkings is a value property: not decided.
 """
 import itertools
-from ..core import (AnalysisBroken, Inliner, canon, strip, last_member, must_pass, relpath, norm_cond, walk, forward)
+from ..core import (names_of, same_value, AnalysisBroken, Inliner, canon, strip, last_member, must_pass, relpath, norm_cond, walk, forward)
 from ..analyses import (is_call, holding, path_to, describe, exits_of, callback_kind, loops, innermost_loop, must_pass_from_block)
 from .. import interp
 
